@@ -97,12 +97,12 @@ def run_pt(shape):
     Mtot = z3.Sum(w2)
     c0 = [z3.Sum([w2[a] * x2[a][c] for a in range(n2)]) / Mtot for c in range(3)]
     for path in eng.explore(body):
-        acc.paths += 1
+        acc.begin(prover, path)
         if path.kind == "exc":
             acc.structural("no_exception", False, detail=repr(path.value) + (path.tb or "")[-600:], cex={"kind": "exception", "exc": type(path.value).__name__})
             continue
-        if acc.reachable is None:
-            acc.reachable = prover.satisfiable(path.premises) == "sat"
+        if acc.reachable is not True:
+            acc.reach(prover.satisfiable(path.premises))
         frames, in1, in2 = path.value
         acc.structural("one_frame_per_row", len(frames) == nf, detail=len(frames))
         if len(frames) != nf:
@@ -158,12 +158,12 @@ def run_center(shape):
         return w.central_molecule.atoms.positions, w.moving_molecule.atoms.positions
 
     for path in eng.explore(body):
-        acc.paths += 1
+        acc.begin(prover, path)
         if path.kind == "exc":
             acc.structural("no_exception", False, detail=repr(path.value) + (path.tb or "")[-600:], cex={"kind": "exception", "exc": type(path.value).__name__})
             continue
-        if acc.reachable is None:
-            acc.reachable = prover.satisfiable(path.premises) == "sat"
+        if acc.reachable is not True:
+            acc.reach(prover.satisfiable(path.premises))
         p1, p2 = path.value
         claims = []
         for (p, w, x, nm) in ((p1, w1, x1, "mol1"), (p2, w2, x2, "mol2")):
